@@ -252,3 +252,22 @@ Theorem wasm_dispatch_only_contract : forall spec, In spec Gen.C03.wasm_specs ->
   forall p, get (owned s') p <> get (owned s) p -> p = m_creator m.
 Proof. exact wasm_dispatch_only_contract_lemma. Qed.
 Print Assumptions wasm_dispatch_only_contract.
+
+(** ---- fourth round: nesting of ANY depth ---- *)
+
+(** A transaction is a forest of messages nested in authz.MsgExec to any depth. With the decorator as
+    the code has it (flattenMsgs: recursive, limit [Gen.C03.max_nested_depth] extracted, refusal before
+    the level beyond the limit is looked at), an accepted transaction has EVERY message, at whatever
+    depth, authorised by its own signers: a message is either checked or the transaction is refused. *)
+Theorem ante_nested_sound : forall g tx,
+  ante_nested Gen.C03.ante_lookup_carried Gen.C03.max_nested_depth g tx = true ->
+  forall top spec m, In top tx -> occurs (spec, m) top -> ms_has_meta spec = true ->
+  exists sg, In sg (m_meta_signers m) /\ (sg = m_creator m \/ granted g (m_creator m) sg = true).
+Proof. exact table_ante_nested_sound. Qed.
+Print Assumptions ante_nested_sound.
+
+(** ... and anything wrapped deeper than the limit is refused, whatever it is. *)
+Theorem nested_beyond_limit_refused : forall carry lim g d m, (lim < d)%nat ->
+  ante_nested carry lim g [wrap d m] = false.
+Proof. intros carry lim g d m H. unfold ante_nested. cbn [flat_list]. rewrite flat_wrap_beyond by exact H. reflexivity. Qed.
+Print Assumptions nested_beyond_limit_refused.
